@@ -29,6 +29,7 @@ import (
 	"os/exec"
 	"runtime"
 	"runtime/debug"
+	"runtime/metrics"
 	"strings"
 	"syscall"
 	"time"
@@ -167,9 +168,15 @@ func runCase(line string) (res string) {
 	var g geom.Geom
 	var err error
 	var m0, m1 runtime.MemStats
+	g0 := runtime.NumGoroutine()
 	runtime.ReadMemStats(&m0)
 	pan := vproto.Safe(func() { g, err = call() })
 	runtime.ReadMemStats(&m1)
+	// a decoder that hands work to goroutines: give them the chance to finish (or to die — a panic
+	// in a goroutine aborts the whole process, which the supervisor reports as `crash` for THIS line)
+	for i := 0; i < 200 && runtime.NumGoroutine() > g0; i++ {
+		time.Sleep(time.Millisecond)
+	}
 	stack := int64(m1.StackInuse) - int64(m0.StackInuse)
 	if stack < 0 {
 		stack = 0
@@ -185,11 +192,20 @@ func runCase(line string) (res string) {
 	case g == nil:
 		return "nilnil " + meas // neither a geometry nor an error
 	}
+	if m1.TotalAlloc-m0.TotalAlloc > bigAlloc {
+		return "ok " + meas + " | big"
+	}
 	if family == "json" {
 		return "ok " + meas + " | " + vproto.GeomToks(g) + " | " + reJSON(g)
 	}
 	return "ok " + meas + " | " + vproto.GeomToks(g) + " | " + reWKB(g, false) + " | " + reWKB(g, true)
 }
+
+// bigAlloc: inputs are at most 64 KiB, so the largest allocation the Spec allows for any line is
+// 128*65536 + 65536 bytes (8.4 MB). A successful call that allocated more than 16 MiB has violated
+// the allocation clause whatever it returned; its result (possibly hundreds of millions of tokens)
+// is not transported to the judge, which reports the allocation.
+const bigAlloc = 16 << 20
 
 func mustHex(s string) []byte {
 	b, err := hex.DecodeString(s)
@@ -204,6 +220,7 @@ func worker() {
 	_ = syscall.Setrlimit(syscall.RLIMIT_AS, &lim)
 	debug.SetMemoryLimit(1 << 30)
 	debug.SetMaxStack(128 << 20) // runaway recursion dies fast: `fatal error: stack overflow` → crash
+	go heapWatchdog()
 	in := bufio.NewReaderSize(os.Stdin, 1<<20)
 	out := bufio.NewWriterSize(os.Stdout, 1<<16)
 	// warm-up: one-time lazy initialisation inside reflect / encoding/binary / encoding/json
@@ -235,8 +252,30 @@ func worker() {
 	}
 }
 
+// heapWatchdog turns runaway allocation into a quick death: the live heap is sampled every few
+// milliseconds and the worker gives up (reported as `oom` for the current line) as soon as it holds
+// more than 256 MiB — for an input of at most 64 KiB (30 times the largest allocation the Spec allows). Without it the collector fights the soft limit
+// for many seconds before the address-space limit finally kills the process.
+func heapWatchdog() {
+	sample := []metrics.Sample{{Name: "/memory/classes/heap/objects:bytes"}}
+	for {
+		time.Sleep(5 * time.Millisecond)
+		metrics.Read(sample)
+		if sample[0].Value.Kind() == metrics.KindUint64 && sample[0].Value.Uint64() > 256<<20 {
+			fmt.Fprintln(os.Stderr, "out of memory: worker heap exceeds 256 MiB")
+			os.Exit(3)
+		}
+	}
+}
+
 // ---------------------------------------------------------------------------------------------
 // supervisor
+
+// maxDeaths: every death of the worker (oom / crash / timeout) and every `big` result (more than
+// 16 MiB allocated) is a violation of the property with the line as failing input. After this many the verdict is long settled; the remaining lines are
+// not run (`skipped`), so that a check against a badly broken tree ends in minutes, not hours. On a
+// tree where no worker dies nothing is ever skipped.
+const maxDeaths = 25
 
 type child struct {
 	cmd    *exec.Cmd
@@ -313,6 +352,7 @@ func impl() {
 	out := bufio.NewWriterSize(os.Stdout, 1<<20)
 	defer out.Flush()
 	var c *child
+	deaths := 0
 	defer func() {
 		if c != nil {
 			c.kill()
@@ -322,12 +362,19 @@ func impl() {
 		line, err := in.ReadString('\n')
 		l := strings.TrimSpace(line)
 		if l != "" {
+			if deaths >= maxDeaths {
+				fmt.Fprintf(out, "%s => skipped\n", l)
+				continue
+			}
 			if c == nil {
 				c = startChild()
 			}
 			res, alive := c.ask(l)
 			if !alive {
 				c = nil
+				deaths++
+			} else if strings.HasSuffix(res, "| big") {
+				deaths++ // > 16 MiB allocated for <= 64 KiB of input: a violation whatever the judge's constants
 			}
 			fmt.Fprintf(out, "%s => %s\n", l, res)
 			out.Flush()
